@@ -211,6 +211,11 @@ Definition tcall_args (k : tcall) : list ref :=
   | TCIte f g h => [f; g; h]
   end.
 
+(** the hypothesis of the theorems on a call, as a checker for real snapshots:
+    every operand is a valid reference *)
+Definition tcall_ok_b (s : snap) (k : tcall) : bool :=
+  forallb (ref_ok_b s) (tcall_args k).
+
 (** ** The instances the correspondence run evaluates on snapshots of the real
     manager: no apply cache, standard fuel (as [not_nc] / [bin_nc] / [ite_nc] of
     Mgr/Oom.v; [gt_none] of Mgr/Oom.v: operand pairs are never swapped, which
